@@ -58,7 +58,7 @@ func (s *c06Sink) WriteAt(p []byte, off int64) (int, error) {
 // receives exactly S bytes, back to back from toOffset, and the bytes at the probed file offsets
 // (first/last byte of each buffer) are the source's bytes.
 func VP_C06_copy_file() {
-	maxS := vp.Bound("copybytes", 4500, 9000)
+	maxS := vp.Bound("copybytes", 4500, 6500)
 	vp.Unwind(maxS/2048 + 12)
 	S := vp.I64("S")
 	vp.Assume(S >= 0)
@@ -67,6 +67,9 @@ func VP_C06_copy_file() {
 	src.UF = true
 	to := int64(vp.U32("toblock")) * 2048
 	probes := []int64{0, 2047, 2048, 4499}
+	if vp.Thorough() {
+		probes = append(probes, 6143, 6144, 6499)
+	}
 	dst := &c06Sink{base: to, probes: probes, hit: make([]bool, len(probes)), val: make([]byte, len(probes))}
 	n, err := copyFileData(src, dst, 0, to, 0)
 	vp.Assert(err == nil, "copy succeeds")
